@@ -280,7 +280,14 @@ func norm404(proj string) string {
 func runConcDuo(tw *traceWriter, r *rand.Rand, round, servers int) {
 	router := pick(r, []string{"curly", "jsr311"})
 	init := concState{services: []*regService{{root: "/a", routes: []string{"", "/x", "/{p}"}}, {root: "/b", routes: []string{"", "/x", "/{p}"}}}}
+	// many more services and plain handlers: rebuilding the ServeMux in Remove takes a while
+	for i := 0; i < 30; i++ {
+		init.services = append(init.services, &regService{root: fmt.Sprintf("/z%d", i), routes: []string{""}})
+	}
 	c := newRegContainer(router)
+	for i := 0; i < 30; i++ {
+		c.Handle(fmt.Sprintf("/hz%d/", i), regHandler("z"))
+	}
 	var liveMu sync.Mutex
 	live := map[string]*restful.WebService{}
 	for _, x := range init.services {
@@ -313,8 +320,8 @@ func runConcDuo(tw *traceWriter, r *rand.Rand, round, servers int) {
 		}
 		return ops
 	}
-	opsA := mkOps([]string{"/c/{x}", "/d"}, "/a", 10+r.Intn(10))
-	opsB := mkOps([]string{"/e", "/f/{y}"}, "/b", 10+r.Intn(10))
+	opsA := mkOps([]string{"/c/{x}", "/d"}, "/a", 120+r.Intn(60))
+	opsB := mkOps([]string{"/e", "/f/{y}"}, "/b", 120+r.Intn(60))
 	final := init
 	for _, op := range opsA {
 		final = applyConcOp(final, op)
@@ -388,7 +395,10 @@ func runConcDuo(tw *traceWriter, r *rand.Rand, round, servers int) {
 		}
 	}
 	fc := final.fresh(router)
-	for _, p := range append(append([]string{}, concProbes...), "/c/1", "/c/1/x", "/e", "/e/x", "/f/2", "/f/2/x", "/d", "/a/dyn", "/b/dyn") {
+	for i := 0; i < 30; i++ {
+		fc.Handle(fmt.Sprintf("/hz%d/", i), regHandler("z"))
+	}
+	for _, p := range append(append([]string{}, concProbes...), "/z3", "/z29", "/hz7/x", "/c/1", "/c/1/x", "/e", "/e/x", "/f/2", "/f/2/x", "/d", "/a/dyn", "/b/dyn") {
 		for _, en := range []string{"S", "D"} {
 			got, _ := regProbe(c, en, p)
 			want, _ := regProbe(fc, en, p)
